@@ -95,6 +95,8 @@ def load_calibrator_state(checkpoint_path: PathLike, _code_state_version: int) -
         series_samp,
         cr["batch_num_samp"].to_numpy(),
         cr["method_samp"].to_numpy(),
+        # sampler name -> id table (absent in checkpoints written by older versions)
+        cp.get("samplers_id_table"),
     )
 
 
@@ -122,6 +124,7 @@ def save_calibrator_state(  # noqa: PLR0913
     series_samp: NDArray[np.float64],
     batch_num_samp: NDArray[np.int64],
     method_samp: NDArray[np.int64],
+    samplers_id_table: Mapping[str, int] | None = None,
 ) -> None:
     """Store the state of the calibrator in a given folder.
 
@@ -149,6 +152,7 @@ def save_calibrator_state(  # noqa: PLR0913
         series_samp: the sampled series
         batch_num_samp: the sampling batch number
         method_samp: the sampling method
+        samplers_id_table: the map from sampler names to the ids used in method_samp
     """
     checkpoint_path = Path(checkpoint_path)
     # create directory if needed
@@ -172,6 +176,8 @@ def save_calibrator_state(  # noqa: PLR0913
         "n_sampled_params": n_sampled_params,
         "n_jobs": n_jobs,
     }
+    if samplers_id_table is not None:
+        calibration_params["samplers_id_table"] = dict(samplers_id_table)
     # save calibration parameters in a json dictionary
     with (checkpoint_path / "calibration_params.json").open("w") as f:
         json.dump(calibration_params, f, cls=NumpyArrayEncoder)
